@@ -89,6 +89,9 @@ class Ctx:
         file, line = self._loc(node, fi, module, ci)
         if text is None and node is not None:
             text = stmt_text(node)
+        for r in self.results:
+            if r.verdict == VIOLATED and r.rule == rule and r.instance == instance and r.text == text:
+                return
         self.results.append(Result(rule, instance, VIOLATED, what, file, line, text=text, witness=witness, extra=extra))
 
     def undecided(self, rule, instance, why, node=None, fi=None, module=None, ci=None):
